@@ -155,8 +155,8 @@ CHECKS = {
         ref="DESIGN.md §3 C16"),
     "C17": dict(
         text="State graph whose nodes are option sets and whose edges append one option: every ordered selection of the six fn/mod options "
-             "and the five trait options (every path into every node), plus all 4^4 value-form combinations {absent,bare,=true,=false} of the "
-             "boolean options x mock_api x ?Send, the `debug` option in every form and position on five base invocations, the three spellings of the dynamic impl-block kind (`ref`, `dyn`, `ref dyn`), under both macro names and both crate features, on fn / concrete-deps fn / parameterless fn / mod / trait / impl items (~11.6k invocations). "
+             "and the five trait options with the delegation option in each of its spellings `= ref`, `= Self` (the table default: must equal omitting it) and the bare word (undocumented: only has to be treated alike in every position) (every path into every node), plus all 4^4 value-form combinations {absent,bare,=true,=false} of the "
+             "boolean options x mock_api x ?Send, the `debug` option in every form and position on five base invocations, the three spellings of the dynamic impl-block kind (`ref`, `dyn`, `ref dyn`), under both macro names and both crate features, on fn / concrete-deps fn / parameterless fn / mod / trait / impl items (~13k invocations). "
              "Invocations with the same semantic key (derived from the statement and the option table's defaults only) must expand to identical token trees - for concrete-deps fns whose "
              "arguments set `unimock` explicitly the nested expansion on the generated trait is compared as well; options outside "
              "their documented target must be rejected, documented ones accepted.",
